@@ -36,6 +36,7 @@ func runC02(c *Ctx, r *Report) {
 	emitSeparatorSites(c, r, "C02-e/list-view", sites, nil)
 	r.Floor("C02-e/list-view", 1, "SliceSpaceExpressionContext.array")
 	c02Flags(c, r)
+	c02PosixLongest(c, r, "C02-f/posix-longest")
 }
 
 // ---------------------------------------------------------------- (a) line numbers
